@@ -522,4 +522,49 @@ theorem driver_linear_forms (ctx : Ctx) (p s : List Byte) (cap : Nat) :
   exact ⟨encodeLin_eq ctx p, encodeLegLin_eq p, by simpa using a2, by simpa using a3, by simpa using a4,
     by simpa using b2, by simpa using b3, by simpa using b4⟩
 
+/-! ### round 3b: exactly which output buffers are large enough -/
+
+/-- THE BUFFER CLAUSE, EXACTLY.  The store-level encoder `gstuffing_v(vec, n, out, ctx)` faults (a store outside
+`out`) IF AND ONLY IF `out` is shorter than the frame; otherwise the first L bytes are the frame, the return
+value is L and everything behind the frame keeps its value.  So what a self-sizing overload has to allocate is
+"at least the frame length" - 2n+4 (`encoder_buffer_writes`) is one sufficient choice, the exact frame length
+(benign change C04-b13-1: measure first, allocate exactly) another; one byte less than the frame is never
+enough.  This is why the check does not compare the capacity of the returned vector. -/
+theorem encoder_buffer_exact (ctx : Ctx) (pieces : List (List Byte)) (out : List Byte) :
+    (gstuffingVW ctx pieces out = none ↔ out.length < (gstuffingV ctx pieces).length) ∧
+    ((gstuffingV ctx pieces).length ≤ out.length →
+      ∃ out', gstuffingVW ctx pieces out = some (out', (gstuffingV ctx pieces).length) ∧
+        out'.take (gstuffingV ctx pieces).length = gstuffingV ctx pieces ∧ out'.length = out.length ∧
+        out'.drop (gstuffingV ctx pieces).length = out.drop (gstuffingV ctx pieces).length) := by
+  refine ⟨⟨fun hn => ?_, fun hlt => ?_⟩, gstuffingVW_reused ctx pieces out⟩
+  · refine Nat.lt_of_not_le (fun hge => ?_)
+    obtain ⟨o, e, _⟩ := gstuffingVW_reused ctx pieces out hge
+    rw [e] at hn; exact absurd hn (by simp)
+  · rw [gstuffingVW_eq]
+    exact emitAll_fault out 0 _ (Nat.zero_le _) (by simpa using hlt)
+
+/-- an overload that allocates EXACTLY the frame length (zero-filled, as `std::vector(n)` does) and lets the
+pointer encoder write into it: no store outside, the vector is the frame -/
+theorem encoder_exact_allocation (ctx : Ctx) (pieces : List (List Byte)) :
+    gstuffingVW ctx pieces (List.replicate (gstuffingV ctx pieces).length 0) =
+      some (gstuffingV ctx pieces, (gstuffingV ctx pieces).length) := by
+  obtain ⟨o, e, e2, e3, _⟩ := gstuffingVW_reused ctx pieces (List.replicate (gstuffingV ctx pieces).length 0) (by simp)
+  rw [e]
+  have : o = gstuffingV ctx pieces := by
+    rw [← e2, List.take_of_length_le (by rw [e3]; simp)]
+  rw [this]
+
+/-- the legacy encoder `gstuffing_v1` alike: faults iff the caller's buffer is shorter than the frame -/
+theorem encoder_buffer_exact_leg (p : List Byte) (out : List Byte) :
+    (gstuffingLegW p out = none ↔ out.length < (gstuffingLeg p).length) := by
+  refine ⟨fun hn => ?_, fun hlt => ?_⟩
+  · refine Nat.lt_of_not_le (fun hge => ?_)
+    obtain ⟨o, e, _⟩ := gstuffingLegW_reused p out hge
+    rw [e] at hn; exact absurd hn (by simp)
+  · rw [gstuffingLegW_eq]
+    exact emitAll_fault out 0 _ (Nat.zero_le _) (by simpa using hlt)
+
+-- non-vacuity: the 3-byte frame of the empty payload in a 2-byte and in a 3-byte buffer
+example : gstuffingVW Ctx.v1 [[]] [0, 0] = none ∧ gstuffingVW Ctx.v1 [[]] [0, 0, 0] ≠ none := by decide
+
 end Igris.Gstuff
